@@ -94,6 +94,7 @@ package types
 //@   loop 1 invariant forall a int :: 0 <= a && a < int(i) ==> mask[hashes[a]]
 //@   loop 1 invariant forall a int, b int :: 0 <= a && a < b && b < int(i) ==> hashes[a] != hashes[b]
 //@   assert[c02-new-hash-is-new] before "mask[txhash] = true" : forall a int :: 0 <= a && a < int(i) ==> hashes[a] != txhash
+//@   ensures source.off <= uint64(len(source.s))
 //@   ensures[c02-no-duplicate] err == nil ==> forall a int, b int :: 0 <= a && a < b && b < gN ==> sel(gA, gO + uint64(a)) != sel(gA, gO + uint64(b))
 //@   ensures[c02-root] err == nil ==> self.Header != nil && self.Header.TransactionsRoot == txRootOf(gA, gO, gN)
 //@   ensures[c02-root-of-these] err == nil ==> len(self.Transactions) == gN && forall a int :: 0 <= a && a < gN ==> self.Transactions[a].hash == sel(gA, gO + uint64(a))
